@@ -412,6 +412,29 @@ def rule_r7(prog, res):
                 continue
             n += 1
             ok = isinstance(x, ast.Call) and call_name(x) == 'to_unicode'
+            # the text form is that of the type whose facet it is: the class
+            # argument is the owner of <owner>.Attributes.<facet>
+            if ok and len(x.args) >= 2:
+                owners = {unparse(t.value.value) for t in ast.walk(x.args[1])
+                          if isinstance(t, ast.Attribute) and
+                          t.attr in TYPED_FACETS and isinstance(
+                              t.value, ast.Attribute) and
+                          t.value.attr == 'Attributes'}
+                carg = unparse(x.args[0])
+                if owners and carg not in owners:
+                    res.ob('R7', where, '%s: %s facet of %s rendered with '
+                           'the text form of %s' % (f.qualname, facet,
+                                                    sorted(owners), carg),
+                           'VIOLATED')
+                    res.finding('R7', '%s|%s|rendered-as|%s' % (
+                        f.qualname, facet, carg), where,
+                        '%s renders the %s facet of %s through to_unicode(%s, '
+                        '...): per-type formatting (timezone=False, '
+                        'dt_format, encodings) is lost, so the published '
+                        'bound differs from the literal the runtime compares '
+                        'and emits' % (f.qualname, facet, sorted(owners),
+                                       carg))
+                    continue
             res.ob('R7', where, '%s: %s facet published as %s' % (
                 f.qualname, facet, unparse(x)[:50]),
                 'ok' if ok else 'VIOLATED')
@@ -439,6 +462,16 @@ def rule_r8(prog, res):
               'C05', c05.rule_r2, prog, Result)
 
 
+def rule_r9(prog, res):
+    from . import c05, c12
+    from ..report import Result
+    txt = ('what the validator enforces is what the schema publishes: '
+           'per-protocol attribute caches (C12-R5) and derived facet caches '
+           '(C05-R11)')
+    res.share('R9', txt, 'C12', c12.rule_r5, prog, Result)
+    res.share('R9', txt, 'C05', c05.rule_r11, prog, Result)
+
+
 def run(prog, res, tier):
     res.run_rule(rule_r1, prog, res)
     res.run_rule(rule_r2, prog, res)
@@ -448,12 +481,17 @@ def run(prog, res, tier):
     res.run_rule(rule_r6, prog, res)
     res.run_rule(rule_r7, prog, res)
     res.run_rule(rule_r8, prog, res)
+    res.run_rule(rule_r9, prog, res)
 
 
 _M = 'spyne/interface/xml_schema/model.py'
 _I = 'spyne/interface/_base.py'
 
 MUTANTS = [
+    Mutant('range-facet-rendered-by-base', 'R7', 'fire', _M,
+           in_func('Tget_range_restriction_tag',
+                   "prot.to_unicode(cls, cls.Attributes.ge)",
+                   "prot.to_unicode(T, cls.Attributes.ge)"), 'rendered-as'),
     Mutant('suggested-encoding-wins', 'R6', 'fire',
            'spyne/protocol/_outbase.py',
            in_func('OutProtocolBase.byte_array_to_unicode',
